@@ -36,6 +36,8 @@ type VerifDumpT struct {
 	Entrypoint     uuid.UUID
 	EntrypointDel  bool
 	EntrypointLive bool // the entry point object is the one stored under its id
+	EntrypointEdges [][]VerifEdge // edges of the entry point object when it is not a stored vertex
+	EntrypointLevel int
 	Vertices       []VerifVertex
 }
 
@@ -59,14 +61,8 @@ func (this *Hnsw) VerifDump() VerifDumpT {
 		d.EntrypointDel = ep.isDeleted()
 		_, d.EntrypointLive = idx[ep]
 	}
-	for _, v := range stored {
-		vv := VerifVertex{Id: v.id, Vector: append([]float32{}, v.vector...), Level: v.level, Deleted: v.isDeleted()}
-		if v.metadata != nil {
-			vv.Metadata = map[string]string{}
-			for k, val := range v.metadata {
-				vv.Metadata[k] = val
-			}
-		}
+	edgesOf := func(v *hnswVertex) [][]VerifEdge {
+		var out [][]VerifEdge
 		for l := 0; l < len(v.edges); l++ {
 			var es []VerifEdge
 			for n, dist := range v.edges[l] {
@@ -82,8 +78,25 @@ func (this *Hnsw) VerifDump() VerifDumpT {
 				}
 				return es[i].ToPtrIdx < es[j].ToPtrIdx
 			})
-			vv.Edges = append(vv.Edges, es)
+			out = append(out, es)
 		}
+		return out
+	}
+	if ep != nil && !d.EntrypointLive {
+		d.EntrypointEdges = edgesOf(ep)
+	}
+	if ep != nil {
+		d.EntrypointLevel = ep.level
+	}
+	for _, v := range stored {
+		vv := VerifVertex{Id: v.id, Vector: append([]float32{}, v.vector...), Level: v.level, Deleted: v.isDeleted()}
+		if v.metadata != nil {
+			vv.Metadata = map[string]string{}
+			for k, val := range v.metadata {
+				vv.Metadata[k] = val
+			}
+		}
+		vv.Edges = edgesOf(v)
 		d.Vertices = append(d.Vertices, vv)
 	}
 	return d
